@@ -129,7 +129,14 @@ pub fn events(args: &[String]) {
                 if !inside { fail("c08-span", format!("event {} at t={} lies outside the integration span", i, te), &mut why, &mut key); }
                 // y_e equals the continuous solution
                 match sol.sol(*te) {
-                    Ok(v) => if !close(&v, ye, 1e-7) { fail("c08-state", format!("event {} at t={}: y_e={:?} but sol(t_e)={:?}", i, te, ye, v), &mut why, &mut key); },
+                    // the handler evaluates the step's interpolant at the located time; `sol` evaluates the stored copy of the same
+                    // coefficients with the same routine: away from step ends (where `sol` may pick the neighbouring segment) the
+                    // two agree bit for bit — a state taken from another trial point of the root search does not
+                    Ok(v) => {
+                        let near_end = sol.t.iter().any(|t| (t - te).abs() <= 1e-9 * (1.0 + te.abs()));
+                        let same = if near_end { close(&v, ye, 1e-7) } else { v.len() == ye.len() && v.iter().zip(ye.iter()).all(|(a, b)| a.to_bits() == b.to_bits()) };
+                        if !same { fail("c08-state", format!("event {} at t={}: y_e={:?} but sol(t_e)={:?}", i, te, ye, v), &mut why, &mut key); }
+                    }
                     Err(_) => fail("c08-state", format!("event {} at t={}: sol(t_e) is not available", i, te), &mut why, &mut key),
                 }
                 // g(t_e, y_e) = 0 to root-finder accuracy
